@@ -49,6 +49,7 @@ Fixpoint den (rho:env) (e:expr) : option R :=
   | Un UNeg c => option_map Ropp (den rho c)
   | Un UFact c => bind1 (den rho c) rfact
   | Un USgn c => option_map rsgn (den rho c)
+  | Un UAbs c => option_map Rabs (den rho c)
   | Bin k l r => bind2 (den rho l) (den rho r) (binop k)
   end.
 
